@@ -15,6 +15,8 @@ ENGINES = [
          kind_free_text="exhaustive enumeration over all 65536 first words through the real disassembler, parser, C binding and makedsp1; decode introspection and execution through libimpl.so"),
     dict(name="sched", path="engines/sched", serves_properties=["C19"],
          kind_free_text="preemption-bounded stateless model checker: the two logical threads run the real code as coroutines under a scheduler that owns every pthread_mutex operation (link-time interposition), latch access (hook 3), API-call and instruction boundary; plus a free-running ThreadSanitizer build of the same bodies"),
+    dict(name="safety", path="engines/safety", serves_properties=["C18"],
+         kind_free_text="exhaustive case enumeration on the whole machine built with clang ASan+UBSan+libstdc++ assertions; memory observer as bounds oracle; forked children with a per-case watchdog"),
 ]
 
 # id -> (engine, technique, level text, level note, design ref)
@@ -87,6 +89,10 @@ CLAIMED = {
             "All histories of length <= 2 over a 34-call API alphabet are executed on three instances whose heap is pre-filled with different patterns (with and without an initial Reset), and every pair (h1 of length <= 2, h2 of length <= 1) is executed as h1;Reset;h2 and compared with fresh;Reset;h2; the observation covers every modelled component (registers incl. hidden banks, latches, MIU, ICU incl. vectors, APBP, timers, audio port, DMA, AHBM incl. burst queues, the whole memory, host getters, callback log). Uninitialised members and incomplete resets are history-dependent bugs that need exactly this kind of exhaustive pairing to show.",
             "Trusted: operator-new replacement as the allocation seam (malloc'd memory is not filled), g++, -fno-access-control observation of private state. Raw backing words of unimplemented MMIO fields and DMA transfer-internal counters are not observed.",
             "DESIGN.md section 4, C17"),
+    "C18": ("safety", "exhaustive enumeration of guest-controllable inputs (all 65536 opcodes x second words x reachable states x pc/prpage extremes, control-flow forms to the edges of program memory, every MMIO offset x value alphabet x both paths, DMA/AHBM configuration extremes) on a sanitizer build, with the memory observer rejecting any out-of-range DSP memory word address; outcome classification per case",
+            "Each family is a finite product that is executed completely (the DMA mode product is reduced in the quick tier); every case runs in a supervised child so that a sanitizer abort, a libstdc++ index assertion, a bounds-oracle hit or a hang is attributed to exactly one case and replayed alone; acceptable outcomes are exactly the three the statement allows.",
+            "Trusted: clang 14 AddressSanitizer/UBSan (incl. detect_stack_use_after_return), _GLIBCXX_ASSERTIONS, the memory-observer hook, the 10 s per-case watchdog. Register states are reachable ones; uninitialised reads are outside ASan's scope (C17 covers constructor-uninitialised members).",
+            "DESIGN.md section 4, C18"),
     "C19": ("sched", "stateless model checking of the real code under a controlled scheduler: DFS over all schedules of six two-thread harnesses up to a preemption bound (iterative 0..3, thorough 0..5), state-hash pruning at choice points, per-schedule oracle; data races by ThreadSanitizer in a separate free-running pass of the same bodies",
             "Every interleaving of the host API calls and the DSP's instruction stream at the granularity of lock operations, latch accesses and instruction/call boundaries is executed up to the preemption bound, so lost updates, check-then-act windows, missed interrupt deliveries and (self-)deadlocks that need one to three specific preemptions are found deterministically and replayed from a recorded schedule; unsynchronised accesses, which a serialising scheduler cannot see, are caught by ThreadSanitizer on the same bodies running free.",
             "Trusted: the scheduler (coroutines, mutex ownership model incl. recursive mutexes, yield/spin detection), glibc's pthread_mutex_t kind field, ThreadSanitizer, g++/clang. Sequential consistency assumed for the explored interleavings; two threads; DSP horizon 120-160 instructions.",
